@@ -109,6 +109,9 @@ func (a *AV) Pretty() string {
 	case AVStr:
 		return strconv.Quote(a.S)
 	case AVStringer:
+		if a.S == "<nil>" {
+			return fmt.Sprintf("Stringer#%d(typed nil pointer, String() returns \"<nil>\")", a.ID)
+		}
 		return fmt.Sprintf("Stringer#%d(%q)", a.ID, a.S)
 	case AVStringerPanic:
 		return fmt.Sprintf("Stringer#%d(panics)", a.ID)
@@ -136,6 +139,51 @@ type strOK struct {
 }
 
 func (t strOK) String() string { callLog = append(callLog, t.id); return t.s }
+
+// typed nil pointers whose String() tolerates the nil receiver (like (*big.Int)(nil)): eight distinct types so that up to
+// eight of them in one object log their own ids
+var nilIDs [8]int
+var nilSlot int
+
+type nilSafe0 struct{ _ int }
+type nilSafe1 struct{ _ int }
+type nilSafe2 struct{ _ int }
+type nilSafe3 struct{ _ int }
+type nilSafe4 struct{ _ int }
+type nilSafe5 struct{ _ int }
+type nilSafe6 struct{ _ int }
+type nilSafe7 struct{ _ int }
+
+func (p *nilSafe0) String() string { callLog = append(callLog, nilIDs[0]); return "<nil>" }
+func (p *nilSafe1) String() string { callLog = append(callLog, nilIDs[1]); return "<nil>" }
+func (p *nilSafe2) String() string { callLog = append(callLog, nilIDs[2]); return "<nil>" }
+func (p *nilSafe3) String() string { callLog = append(callLog, nilIDs[3]); return "<nil>" }
+func (p *nilSafe4) String() string { callLog = append(callLog, nilIDs[4]); return "<nil>" }
+func (p *nilSafe5) String() string { callLog = append(callLog, nilIDs[5]); return "<nil>" }
+func (p *nilSafe6) String() string { callLog = append(callLog, nilIDs[6]); return "<nil>" }
+func (p *nilSafe7) String() string { callLog = append(callLog, nilIDs[7]); return "<nil>" }
+
+func mkNilSafe(id int) interface{} {
+	nilSlot = (nilSlot + 1) % 8
+	nilIDs[nilSlot] = id
+	switch nilSlot {
+	case 0:
+		return (*nilSafe0)(nil)
+	case 1:
+		return (*nilSafe1)(nil)
+	case 2:
+		return (*nilSafe2)(nil)
+	case 3:
+		return (*nilSafe3)(nil)
+	case 4:
+		return (*nilSafe4)(nil)
+	case 5:
+		return (*nilSafe5)(nil)
+	case 6:
+		return (*nilSafe6)(nil)
+	}
+	return (*nilSafe7)(nil)
+}
 
 type strPanic struct{ id int }
 
@@ -208,6 +256,9 @@ func (a *AV) Go(shared map[*AV]interface{}) interface{} {
 	case AVStr:
 		return a.S
 	case AVStringer:
+		if a.S == "<nil>" {
+			return mkNilSafe(a.ID) // a typed nil pointer whose String() accepts the nil receiver, like (*big.Int)(nil)
+		}
 		return strOK{a.ID, a.S}
 	case AVStringerPanic:
 		return strPanic{a.ID}
